@@ -304,4 +304,191 @@ theorem addAll_causal_added : ∀ (l : List Change) (t : T), t.unatt = [] → t.
       · exact i2 d e (by simpa using hh)
 
 
+theorem add_added (t0 : T) (l : List Change) (hroot : (addTree t0 l).root.isSome = true) :
+    (add t0 l).added = (addAll { t0 with added := [] } l).added := by
+  unfold add
+  simp only
+  split
+  · rename_i he
+    have : (addTree t0 l).added = [] := by simpa using he
+    show [] = (addTree t0 l).added
+    rw [this]
+  · split
+    · rename_i h; rw [h] at hroot; simp at hroot
+    · split <;> rfl
+
+/-- the hypotheses under which one `AddRawChanges` step stores the whole batch -/
+def StepHyp (q : Recv) (theirPath : List Nat) (b : List Change) : Prop :=
+  (∀ c ∈ q.tree.att, q.holds c.id = true) ∧
+  match addRaw q.stored q.path theirPath q.tree b with
+  | .nothing => True
+  | .noCommonSnapshot => False
+  | .plain _ _ => q.tree.unatt = [] ∧ q.tree.root.isSome = true ∧ CausalFor q.tree (newOf q.tree b)
+  | .rebuilt _ _ =>
+    ∃ (cs : Nat) (csC : Change) (rest l0 : List Change),
+      commonSnapshot q.path theirPath = some cs ∧ q.stored.dropWhile (·.id != cs) = csC :: rest ∧
+      csC.id = cs ∧ cs ∉ csC.prevs ∧
+      (∀ a ∈ rest ++ extraOf q.stored q.tree b, ∀ b' ∈ rest ++ extraOf q.stored q.tree b, a.id = b'.id → a = b') ∧
+      (∀ p ∈ csC.prevs, ∀ c ∈ rest ++ extraOf q.stored q.tree b, c.id ≠ p) ∧
+      SnapOK (rest ++ extraOf q.stored q.tree b) (baseTree cs csC) ∧
+      (∀ c ∈ l0, c ∈ rest ++ extraOf q.stored q.tree b) ∧ CausalFor (baseTree cs csC) l0 ∧
+      (∀ c ∈ extraOf q.stored q.tree b, c ∈ l0)
+
+theorem holds_iff {q : Recv} {x : Nat} : q.holds x = true ↔ x ∈ q.stored.map (·.id) := by
+  unfold Recv.holds
+  simp only [List.any_eq_true, List.mem_map]
+  constructor
+  · rintro ⟨c, hc, he⟩; exact ⟨c, hc, by simpa using he⟩
+  · rintro ⟨c, hc, he⟩; exact ⟨c, hc, by simpa using he⟩
+
+/-- **one step stores the batch** -/
+theorem recvStep_holds (q q' : Recv) (theirPath : List Nat) (b : List Change)
+    (hh : StepHyp q theirPath b) (hstep : RecvStep q theirPath b q') :
+    (∀ x, q.holds x = true → q'.holds x = true) ∧ ∀ c ∈ b, q'.holds c.id = true := by
+  obtain ⟨hmem, hh⟩ := hh
+  have inMem : ∀ c : Change, q.tree.has c.id = true → q.holds c.id = true := by
+    intro c hc
+    obtain ⟨d, hd, hid⟩ := List.mem_map.mp (has_iff.mp hc)
+    rw [← hid]; exact hmem d hd
+  unfold RecvStep at hstep
+  -- storing the added changes
+  have store : ∀ (t' : T) (added : List Nat),
+      StorageUpdate q.stored q'.stored (b.filter (fun c => added.contains c.id)) →
+      (∀ c ∈ b, q.holds c.id = true ∨ c.id ∈ added) →
+      (∀ x, q.holds x = true → q'.holds x = true) ∧ ∀ c ∈ b, q'.holds c.id = true := by
+    intro t' added hu hall
+    obtain ⟨_, hm, _, _⟩ := hu
+    have mono : ∀ x, q.holds x = true → q'.holds x = true := by
+      intro x hx
+      obtain ⟨d, hd, hid⟩ := List.mem_map.mp (holds_iff.mp hx)
+      exact holds_iff.mpr (List.mem_map.mpr ⟨d, (hm d).mpr (Or.inl hd), hid⟩)
+    refine ⟨mono, ?_⟩
+    intro c hc
+    rcases hall c hc with h | h
+    · exact mono _ h
+    · exact holds_iff.mpr (List.mem_map.mpr ⟨c, (hm c).mpr (Or.inr (List.mem_filter.mpr ⟨hc, by simpa using h⟩)), rfl⟩)
+  cases hres : addRaw q.stored q.path theirPath q.tree b with
+  | nothing =>
+    rw [hres] at hstep
+    simp only at hstep
+    subst hstep
+    refine ⟨fun x hx => hx, ?_⟩
+    intro c hc
+    -- every change of the batch is attached in memory
+    have hnew : (b.filter (fun c => !q'.tree.has c.id)).isEmpty = true := by
+      unfold addRaw at hres
+      simp only at hres
+      split at hres
+      · assumption
+      · split at hres
+        · split at hres <;> simp at hres
+        · simp at hres
+    have : q'.tree.has c.id = true := by
+      cases h : q'.tree.has c.id
+      · have : c ∈ b.filter (fun c => !q'.tree.has c.id) := List.mem_filter.mpr ⟨hc, by simp [h]⟩
+        have he : b.filter (fun c => !q'.tree.has c.id) = [] := by simpa using hnew
+        rw [he] at this; simp at this
+      · rfl
+    exact inMem c this
+  | noCommonSnapshot => rw [hres] at hh; exact absurd hh id
+  | plain t' added =>
+    rw [hres] at hstep hh
+    simp only at hstep hh
+    obtain ⟨hun, hroot, hcaus⟩ := hh
+    apply store t' added hstep.1
+    intro c hc
+    cases h : q.tree.has c.id
+    · right
+      -- `added` is what the causal run reports
+      unfold addRaw at hres
+      simp only at hres
+      split at hres
+      · simp at hres
+      · split at hres
+        · split at hres <;> simp at hres
+        · simp only [RawOutcome.plain.injEq] at hres
+          obtain ⟨_, hadd⟩ := hres
+          have hE : b.filter (fun c => !q.tree.has c.id) = newOf q.tree b := rfl
+          rw [hE] at hadd
+          obtain ⟨_, r2, _, _, _, _⟩ := addAll_causal (newOf q.tree b) { q.tree with added := [] } hun hroot hcaus
+          have hrt : (addTree q.tree (newOf q.tree b)).root.isSome = true := by
+            show (addAll { q.tree with added := [] } (newOf q.tree b)).root.isSome = true
+            rw [r2]; exact hroot
+          rw [← hadd, add_added _ _ hrt]
+          exact (addAll_causal_added (newOf q.tree b) { q.tree with added := [] } hun hroot hcaus).2 c
+            (List.mem_filter.mpr ⟨hc, by simp [h]⟩) h
+    · exact Or.inl (inMem c h)
+  | rebuilt t' added =>
+    rw [hres] at hstep hh
+    simp only at hstep hh
+    obtain ⟨cs, csC, rest, l0, hcs, hload, hid, hself, huniq, hrp, hs, hl0, hcaus, hext⟩ := hh
+    obtain ⟨_, _, hall⟩ := addRaw_rebuilt_causal q.stored q.path theirPath q.tree b cs csC rest t' added
+      hcs hload hid hself huniq hrp hs l0 hl0 hcaus hext hres
+    apply store t' added hstep.1
+    intro c hc
+    cases h : q.tree.has c.id
+    · cases h2 : q.stored.any (·.id == c.id)
+      · right
+        have hcin : c ∈ (newOf q.tree b).filter (fun c => !q.stored.any (·.id == c.id)) :=
+          List.mem_filter.mpr ⟨List.mem_filter.mpr ⟨hc, by simp [h]⟩, by simp [h2]⟩
+        obtain ⟨d, hd, hdid⟩ := (dedupById_spec _).2.1 c hcin
+        rw [← hdid]; exact (hall d hd).2
+      · exact Or.inl h2
+    · exact Or.inl (inMem c h)
+
+/-- **the run stores every sent change**, given an invariant of the receiver (and the batches still to come) that is
+preserved by the steps and implies the step hypotheses -/
+theorem recvRun_holds (theirPath : List Nat) (I : Recv → List (List Change) → Prop)
+    (hpres : ∀ q b bs q', I q (b :: bs) → RecvStep q theirPath b q' → I q' bs)
+    (hok : ∀ q b bs, I q (b :: bs) → StepHyp q theirPath b) :
+    ∀ (q0 q : Recv) (batches : List (List Change)), I q0 batches → RecvRun theirPath q0 batches q →
+      (∀ x, q0.holds x = true → q.holds x = true) ∧ ∀ c ∈ batches.flatten, q.holds c.id = true := by
+  intro q0 q batches hI hrun
+  induction hrun with
+  | nil q => exact ⟨fun x hx => hx, by simp⟩
+  | @cons q q' q'' b bs hstep _ ih =>
+    obtain ⟨m1, s1⟩ := recvStep_holds q q' theirPath b (hok q b bs hI) hstep
+    obtain ⟨m2, s2⟩ := ih (hpres q b bs q' hI hstep)
+    refine ⟨fun x hx => m2 x (m1 x hx), ?_⟩
+    intro c hc
+    simp only [List.flatten_cons, List.mem_append] at hc
+    rcases hc with h | h
+    · exact m2 _ (s1 c h)
+    · exact s2 c h
+
+
+/-- **the rebuild branch for an honest DAG**: `causal_from_entry` + `addRaw_rebuilt_causal`.  The storage followed by the
+not yet stored changes of the batch is a linear extension (`SInv`); below the common snapshot the DAG is entered only
+through it (`D`, the entry property); every new change lies below the common snapshot. -/
+theorem addRaw_rebuilt_entry (pre rest : List Change) (ourPath theirPath : List Nat) (t : T) (batch : List Change)
+    (cs : Nat) (csC : Change) (t' : T) (added : List Nat) (D : Nat → Bool)
+    (hcs : commonSnapshot ourPath theirPath = some cs)
+    (hload : (pre ++ csC :: rest).dropWhile (·.id != cs) = csC :: rest)
+    (hid : csC.id = cs) (hself : cs ∉ csC.prevs)
+    (hF : SInv ((pre ++ csC :: rest) ++ extraOf (pre ++ csC :: rest) t batch))
+    (hrootprev : ∀ p ∈ csC.prevs, ∀ c ∈ rest ++ extraOf (pre ++ csC :: rest) t batch, c.id ≠ p)
+    (hs : SnapOK (rest ++ extraOf (pre ++ csC :: rest) t batch) (baseTree cs csC))
+    (D0 : D cs = false) (Dpre : ∀ c ∈ pre, D c.id = false)
+    (D1 : ∀ c ∈ rest ++ extraOf (pre ++ csC :: rest) t batch, D c.id = true →
+      c.prevs ≠ [] ∧ (∀ p ∈ c.prevs, p = cs ∨ D p = true) ∧ (c.snap = cs ∨ D c.snap = true))
+    (D2 : ∀ c ∈ extraOf (pre ++ csC :: rest) t batch, D c.id = true)
+    (hres : addRaw (pre ++ csC :: rest) ourPath theirPath t batch = .rebuilt t' added) :
+    t'.root = some cs ∧ t'.unatt = [] ∧
+    ∀ c ∈ extraOf (pre ++ csC :: rest) t batch, t'.has c.id = true ∧ c.id ∈ added := by
+  have hcaus := causal_from_entry pre rest (extraOf (pre ++ csC :: rest) t batch) cs csC D hF hid D0 Dpre D1
+  have hnd := hF.nodup
+  have huniq : ∀ a ∈ rest ++ extraOf (pre ++ csC :: rest) t batch,
+      ∀ b ∈ rest ++ extraOf (pre ++ csC :: rest) t batch, a.id = b.id → a = b := by
+    intro a ha b hb hab
+    have hin : ∀ x ∈ rest ++ extraOf (pre ++ csC :: rest) t batch,
+        x ∈ (pre ++ csC :: rest) ++ extraOf (pre ++ csC :: rest) t batch := by
+      intro x hx
+      rcases List.mem_append.mp hx with h | h
+      · exact List.mem_append.mpr (Or.inl (List.mem_append.mpr (Or.inr (List.mem_cons_of_mem _ h))))
+      · exact List.mem_append.mpr (Or.inr h)
+    exact nodup_ids_inj hnd a (hin a ha) b (hin b hb) hab
+  exact addRaw_rebuilt_causal (pre ++ csC :: rest) ourPath theirPath t batch cs csC rest t' added hcs hload hid hself
+    huniq hrootprev hs _ (fun c hc => (List.mem_filter.mp hc).1) hcaus
+    (fun c hc => List.mem_filter.mpr ⟨List.mem_append.mpr (Or.inr hc), D2 c hc⟩) hres
+
 end AnySync.Tree
